@@ -17,7 +17,7 @@ TECHNIQUE = "runtime monitoring: post-condition taps on crop / extract_patches /
 LEVEL_TEXT = ("Every crop (2D/3D/4D, all image classes, integer/fractional bounds inside, partly outside on each side, wholly outside; constraining on/off) is compared bit for bit "
               "with numpy slicing incl. landmarks, mask and returned transform, and the boundary contract is enforced; every patch extraction (1-5 channels, any dtype, odd/even/non-square "
               "patches, centres inside/near/beyond borders, offsets, orders 0/1/3, both modes) is compared with a reference sampler; held-on-what-was-observed")
-LEVEL_NOTE = "trusted: numpy slicing and the 15-line nearest-neighbour sampler in props/c13.py; fractional patch centres within 0.05 of a rounding tie are not judged"
+LEVEL_NOTE = "trusted: numpy slicing and the 15-line nearest-neighbour sampler in props/c13.py; fractional patch centres within 0.05 of a rounding tie are not judged; known finding: the resampling path rounds 64-bit integers beyond 2**53 through double"
 DESIGN_REF = "DESIGN.md section 7, C13"
 RULE = ("crops: image class x dims (2,3,4) x dtype x bounds kind (inside / low side out / high side out / both / wholly outside / fractional) x constrain flag; patches: channels 1-5 x dtype x "
         "patch shape (odd/even/non-square) x centre kind (interior / near border / beyond border, integer or fractional) x offsets (none, 1-5) x order (0,1,3) x mode; non-trivial = crop is a proper "
